@@ -78,23 +78,24 @@ Quick ==
  \cup { W("v6", "B", 17, 5, 13, 2, 2) }
  \cup { W("i", "B", 12, 4, 6, 2, 2) }
 Thorough ==
-      { W("v", "E", 0, 3, 3, 4, 4) }
- \cup { W("v", "B", n, 4, c, 3, 3) : n \in {3, 4}, c \in {1, 3} }
- \cup { W("v", "B", n, 4, c, 3, 3) : n \in {9, 10, 12, 13}, c \in {1, 5, 9, 12} }
- \cup { W("v", "D", n, 4, c, 3, 3) : n \in {9, 12}, c \in {2, 8} }
- \cup { W("v", "B", n, 5, c, 3, 3) : n \in {19, 27, 28}, c \in {1, 9, 10, 18, 19, 27} }
- \cup { W("v", "A", n, 4, c, 3, 4) : n \in {5, 8, 11}, c \in {1, 4, 8} }
- \cup { W("v", "A", n, 5, c, 3, 4) : n \in {14, 17, 20}, c \in {1, 9, 16} }
- \cup { W("v", "Z", n, 5, c, 3, 4) : n \in {8, 14, 20}, c \in {1, 7, 13} }
- \cup { W("v", "P", n, 5, c, 3, 4) : n \in {10, 15, 20}, c \in {2, 8} }
- \cup { W("iv", "E", 0, 3, 3, 4, 3) }
- \cup { W("iv", pk, n, 4, c, 3, 3) : pk \in {"B", "A"}, n \in {10, 13}, c \in {1, 9} }
- \cup { W("v6", pk, n, 4, c, 3, 3) : pk \in {"B", "A", "Z"}, n \in {13, 17}, c \in {2, 12} }
- \cup { W("v9", pk, n, 5, c, 3, 3) : pk \in {"B", "A"}, n \in {25}, c \in {4, 20} }
- \cup { W("i", pk, 12, 4, 6, 3, 3) : pk \in {"B", "A"} }
-\* wide nodes (INTEGER keys, degree 215): 214 ascending inserts fill the root leaf to the brim; the window then splits it
-\* (107 | 108), borrows and merges at the real production fan-out
-Wide == { W("i", "A", 214, 40, c, 1, 4) : c \in {1, 107} }
+      { W("v", "E", 0, 3, 3, 3, 4) }
+ \cup { W("v", "B", n, 4, c, 2, 3) : n \in {3, 4}, c \in {1, 3} }
+ \cup { W("v", "B", n, 4, c, 2, 3) : n \in {9, 10, 12, 13}, c \in {1, 9, 12} }
+ \cup { W("v", "D", n, 4, c, 2, 3) : n \in {9, 12}, c \in {3, 8} }
+ \cup { W("v", "B", n, 5, c, 2, 3) : n \in {19, 27, 28}, c \in {1, 10, 18, 27} }
+ \cup { W("v", "A", n, 4, c, 2, 3) : n \in {5, 8, 11}, c \in {1, 4, 8} }
+ \cup { W("v", "A", n, 5, c, 2, 3) : n \in {14, 17, 20}, c \in {1, 9, 16} }
+ \cup { W("v", "A", 17, 5, 9, 2, 4) }
+ \cup { W("v", "Z", n, 5, c, 2, 3) : n \in {8, 14, 20}, c \in {2, 7} }
+ \cup { W("v", "P", n, 5, c, 2, 3) : n \in {10, 15, 20}, c \in {3, 8} }
+ \cup { W("iv", "E", 0, 3, 3, 3, 3) }
+ \cup { W("iv", pk, n, 4, c, 2, 3) : pk \in {"B", "A"}, n \in {10, 13}, c \in {2, 9} }
+ \cup { W("v6", pk, n, 4, c, 2, 3) : pk \in {"B", "A", "Z"}, n \in {13, 17}, c \in {2, 12} }
+ \cup { W("v9", pk, 25, 5, c, 2, 3) : pk \in {"B", "A"}, c \in {4, 20} }
+ \cup { W("i", pk, 12, 4, 6, 2, 3) : pk \in {"B", "A"} }
+\* wide nodes (INTEGER keys, degree 204): 203 ascending inserts fill the root leaf to the brim; the window then splits it
+\* (102 | 102), merges it back and borrows at the real production fan-out
+Wide == { W("i", "A", 203, 100, c, 1, 3) : c \in {1, 102, 203} }
 SimCombos == { Combo("v", 48, 5, "E", 0, 1, 48, 0), Combo("v6", 72, 6, "E", 0, 1, 72, 0),
                Combo("v9", 120, 10, "E", 0, 1, 120, 0), Combo("iv", 60, 5, "E", 0, 1, 60, 0) }
 \* after the re-open the window calls go on (a split right after it allocates pages: the page manager's state must
@@ -219,7 +220,7 @@ BreakChain(dd) == [dd EXCEPT !.nodes[2].nx = 0]
 DropEntry(dd) == LET i == IF Len(dd.nodes) = 1 THEN 1 ELSE 2 IN [dd EXCEPT !.nodes[i].ks = Tail(@), !.nodes[i].rs = Tail(@)]
 WrongDepth(dd) == [dd EXCEPT !.h = @ + 1]
 WfSelfCheck ==
-   Mode = "exh" =>
+   (Mode = "exh" /\ cmb.nu <= 130) =>
      \E dd \in { CanonDump(m) } :          \* (bound once: operator arguments are re-evaluated at every use)
      /\ WellFormed(dd, m, cmb.nu)
      /\ \E x \in { WrongDepth(dd) } : WfFails(x, m, cmb.nu) = <<"depth">>
@@ -228,7 +229,7 @@ WfSelfCheck ==
                          /\ \E x \in { BreakChain(dd) } : WfFails(x, m, cmb.nu) = <<"chain">>)
 \* the validator's shortcuts equal the definitions on the whole probe battery
 ShortcutsOK ==
-   Mode = "exh" =>
+   (Mode = "exh" /\ cmb.nu <= 130) =>
      \E fa \in { FlatTo(m, cmb.nu) } : \E cu \in { CumTo(m, cmb.nu) } : \E R \in { Ranges(cmb.nu, cmb.stride) } :
         /\ fa = Flat(RangeGroups(m, Full))
         /\ \A i \in { j \in 1..Len(R) : j % 13 = TotalRids(m) % 13 } : Seg(fa, cu, R[i]) = Flat(RangeGroups(m, R[i]))
